@@ -10,6 +10,7 @@ import (
 	"slices"
 	"sort"
 	"strings"
+	"sync"
 	"time"
 
 	"github.com/spq/pkappa2/verifx/mc"
@@ -202,18 +203,28 @@ func exploreAll(tier string, budget time.Duration, cap int64, convBin string, on
 		scs = f
 	}
 	end := time.Now().Add(budget)
-	var rows []row
+	// the levels of one scenario's search are often narrower than the machine: several scenarios are
+	// explored at the same time (each world is a service of its own; the hooks are keyed by the service)
+	rows := make([]row, len(scs))
+	sem := make(chan struct{}, 4)
+	var wg sync.WaitGroup
+	var mu sync.Mutex
 	for i := range scs {
-		sc := &scs[i]
-		// twice the fair share of what is left: what earlier scenarios did not use is available to the
-		// later ones, and one slow scenario cannot starve the rest
-		deadline := time.Now().Add(2 * time.Until(end) / time.Duration(len(scs)-i))
-		if deadline.After(end) {
-			deadline = end
-		}
-		st := svc.Explore(sc, convBin, cap, deadline, func(path []string, v svc.V) { onV(sc, path, v) })
-		rows = append(rows, row{sc.Name, st})
+		wg.Add(1)
+		sem <- struct{}{}
+		go func(i int) {
+			defer wg.Done()
+			defer func() { <-sem }()
+			sc := &scs[i]
+			st := svc.Explore(sc, convBin, cap, end, func(path []string, v svc.V) {
+				mu.Lock()
+				defer mu.Unlock()
+				onV(sc, path, v)
+			})
+			rows[i] = row{sc.Name, st}
+		}(i)
 	}
+	wg.Wait()
 	return rows
 }
 
